@@ -353,6 +353,14 @@ pub fn run_close(ctx: &mut Ctx, scn: &StoreScn) {
     let keys = scn.keys.clone();
     let cfg = scn.cfg.clone();
     let mut model = Model::new();
+    // a share of the runs fail one file-system call (or a short episode) of the store's OWN
+    // threads: a timer-driven merge or sync reports an error in the background, client calls are
+    // never failed, and everything the property says about closing must hold all the same
+    if let Some((nth, errno, mode)) = scn.fault {
+        fsim::with_fs(ctx.sim, |fs| {
+            fs.fault = Some(fsim::FaultSpec { nth, errno, mode: fsim::FailMode::Clean, extra: ((mode >> 4) & 7) as u32, space_only: false, background_only: true });
+        });
+    }
     let mut store = match store::open_store(ctx, &rel, &cfg) {
         Ok(s) => Some(s),
         Err(e) => {
@@ -370,6 +378,7 @@ pub fn run_close(ctx: &mut Ctx, scn: &StoreScn) {
         let keys = keys.clone();
         let results = results.clone();
         joins.push(simrt::spawn(&format!("client-{}", ti), simrt::sched::DEFAULT_STACK, move || {
+            fsim::mark_client_thread();
             for (i, op) in ops.iter().enumerate() {
                 let r = match op {
                     Op::Set(k, v) => store::set(&h, &keys[*k], v.bytes()).map(|_| None),
